@@ -68,8 +68,13 @@ def case_dt(kind, shape, dtype, nus, cfls, rho=1.0, x_range=1.0):
         sim.kinematic_viscosity = nu
         sim.cfl = cfl
         dx = float(real_t(x_range / shape[-1]))  # documented spacing, not read back from the simulator
-        for vel in VELS:
-            sim.velocity_field[...] = _velocity(vel, dim, shape, real_t)
+        for vi, vel in enumerate(VELS):
+            if vi % 2 == 0 or big:
+                sim.velocity_field[...] = _velocity(vel, dim, shape, real_t)
+            else:
+                # the public attribute is re-bound to a NEW array (how a prescribed velocity is naturally set on the
+                # passive-transport simulator): "the velocity field of the simulator" is whatever the attribute holds
+                sim.velocity_field = _velocity(vel, dim, shape, real_t)
             umax = float(np.abs(sim.velocity_field.astype(np.float64)).sum(0).max())
             dts = {}
             for p in PREFACS:
